@@ -76,6 +76,24 @@ CLAIMED["C09"] = dict(
     design="§5 C09", technique="Lean 4 invariant + L1 quiescence theorem + trace acceptance + close monitors on real runs",
     note="Same trusted base as C07.")
 
+CLAIMED["C13"] = dict(
+    text="Lean 4 theorems over every reachable state of a model of till.daemon and Till() (Int clock, INTERVAL > 0 a parameter, "
+         "any number of creators, locked sections split into acquire/body/release, the unlocked next_ping read-modify-write split "
+         "in two): the polling loop never fires a timer before its deadline; scans are at most one interval apart; while the daemon "
+         "runs an unfired registered Till implies clock <= max(deadline, registration) + INTERVAL; non-positive seconds yield the "
+         "always-true signal.",
+    design="§5 C13", technique="Lean 4 inductive invariant (32 fields, Int arithmetic by omega, sort/split list lemmas) + trace acceptance of the real daemon on a virtual clock",
+    note="Trusted: Lean kernel + standard axioms; model Till.lean tied to till.py by trace acceptance under the deterministic scheduler "
+         "(thread-local steps taken eagerly); idle-system clock discipline (time passes only while the daemon sleeps and no creation "
+         "is in progress) is an assumption of the property; list.sort, weakrefs, float arithmetic modelled (dyadic interval in runs).")
+CLAIMED["C14"] = dict(
+    text="Lean 4 theorems on the same model (of the REPAIRED Till.__init__): when the daemon has finished its shutdown and no "
+         "creation is in progress every Till ever created is true; creators can always finish; L1: no Till is untriggered in any "
+         "quiescent state after daemon end; a Till requested after disable is the always-true signal; a creation caught mid-way "
+         "fires itself. The pinned tree violated this (stranded creation during the final drain): fixed in /repo, replay in corpus.",
+    design="§5 C14, §7", technique="Lean 4 inductive invariant + L1 quiescence theorem + trace acceptance with shutdown at every step of creation",
+    note="Same trusted base as C13. The two generations of the `enabled` signal (stale object reads) are modelled explicitly.")
+
 PENDING = {}
 
 
